@@ -243,8 +243,8 @@ Proof. exact plain_leaf_correct. Qed.
 Print Assumptions C11_plain_leaf_correct.
 
 (* an adequate generic leaf returns the spec values of every stream of runs inside the decoder's region *)
-Theorem C11_generic_leaf_values : forall w selfmade a isz rs,
-  adequate w selfmade (DGeneric a isz) = true ->
+Theorem C11_generic_leaf_values : forall w selfmade one_run a isz rs,
+  adequate w selfmade one_run (DGeneric a isz) = true ->
   Forall (irun_ok w isz) rs -> rs <> [] ->
   run_idec (DGeneric a isz) w (hyb_enc w rs) (lenN (allvals rs)) = Some (map (tr isz) (allvals rs)).
 Proof. exact generic_leaf_values. Qed.
@@ -262,11 +262,31 @@ Theorem C11_fast_leaf_correct : forall k h vals,
 Proof. exact fast_leaf_correct. Qed.
 Print Assumptions C11_fast_leaf_correct.
 
+(* ... also when the one run holds more values than the page has (a last group padded to 8 values: the format's own layout, which the
+   one-run guard of the shortcuts admits): the view keeps the first n *)
+Theorem C11_fast_leaf_prefix : forall k h vals extra,
+  (k = 1 \/ k = 2 \/ k = 4)%nat -> h < 2 ^ 64 ->
+  Forall (fun v => v < 256 ^ N.of_nat k) vals ->
+  fast_read (8 * N.of_nat k) (uleb_enc h ++ fixed_enc k (vals ++ extra)) (N.of_nat (length vals)) = Some vals.
+Proof. exact fast_leaf_prefix. Qed.
+Print Assumptions C11_fast_leaf_prefix.
+
+(* ... as SIGNED integers: a stored index comes back unchanged exactly when its top bit is clear (so encode_dict must announce a
+   width whose signed range holds every code: regenerated obligation gen_encode_dict_own_reader); false without that bound *)
+Theorem C11_signed_view_exact : forall k v, (1 <= k)%nat -> v < 2 ^ (8 * N.of_nat k) ->
+  (signed_view k v = Z.of_N v <-> v < 2 ^ (8 * N.of_nat k - 1)).
+Proof. exact signed_view_exact. Qed.
+Print Assumptions C11_signed_view_exact.
+
+Theorem C11_signed_view_high_bit_refuted : exists v, v < 2 ^ 8 /\ signed_view 1 v <> Z.of_N v.
+Proof. exact signed_view_high_bit_refuted. Qed.
+Print Assumptions C11_signed_view_high_bit_refuted.
+
 (* what adequacy of a choice means *)
-Theorem C11_adequate_facts : forall w selfmade d, adequate w selfmade d = true ->
+Theorem C11_adequate_facts : forall w selfmade one_run d, adequate w selfmade one_run d = true ->
   match d with
-  | DFast => selfmade = true /\ own_width w = true
-  | DGeneric a isz => a = isz /\ (isz = 1 \/ isz = 4) /\ 0 < w <= 8 * isz /\ (selfmade = true -> own_width w = false)
+  | DFast => selfmade = true /\ own_width w = true /\ one_run = true
+  | DGeneric a isz => a = isz /\ (isz = 1 \/ isz = 4) /\ 0 < w <= 8 * isz /\ takes_view w selfmade one_run = false
   | DZeros => w = 0
   | DNone => False
   end.
